@@ -418,6 +418,8 @@ def run_universe(ctx: Ctx, ident: str, uvar: str, results: list, acc: Acc):
                 if any(n not in bit for n in names):
                     return None
                 m = sum(1 << bit[n] for n in set(names))
+                if m >> 120:
+                    return None         # more than 120 elements: not representable (fail closed below)
                 if [n for n in sp.order if n in set(names)] != list(names):
                     # the mask would hide it: names of a result group not in universe order / with duplicates
                     if not custom:
@@ -426,12 +428,15 @@ def run_universe(ctx: Ctx, ident: str, uvar: str, results: list, acc: Acc):
                     return None
                 masks[gid] = m
             return m
+        lo60 = (1 << 60) - 1
         for r in res["pairs"]:
             mu, mi = mask(r[2]), mask(r[3])
             if mu is None or mi is None:
                 ctx.tie_broken("correspondence", "pairs", f"result group of {tbl[r[0]]} , {tbl[r[1]]} cannot be encoded: {tbl[r[2]]} / {tbl[r[3]]}")
                 continue
-            acc.p.append((f"(T_{ident}, ({ix(tbl[r[0]])}%N, {ix(tbl[r[1]])}%N, {mu}%N, {mi}%N, {clist(cbool(x) for x in r[4:])}))", (ident, tbl, r)))
+            bits = sum(1 << k for k, x in enumerate(r[4:8]) if x)
+            acc.p.append((f"mk63 T_{ident} {ix(tbl[r[0]])} {ix(tbl[r[1]])} {hex(mu & lo60)} {hex(mu >> 60)} {hex(mi & lo60)} {hex(mi >> 60)} {bits}",
+                          (ident, tbl, r)))
         ctx.hist("pairs", ident, len(res["pairs"]))
         for row in res.get("nary", []):
             if isinstance(row[2], str):
@@ -464,7 +469,7 @@ def evaluate_model(ctx: Ctx, acc: Acc):
     hdr = HDR + N.header()
     hdrx = HDRX + N.header()
     tables_ok = write_tables(ctx, acc, N) if acc.p else False
-    hdrp = HDRX + "From V Require Import Cases.C12.tables.\n"
+    hdrp = HDRX + "From Coq Require Import Uint63.\nFrom V Require Import Cases.C12.tables.\n"
     chk_ix = "chk_pair_t"
     for name, items, chk, shard, h in (("universes", acc.u, "chk_universe", 1, HDR), ("groups", acc.g, "chk_group", 900, hdr),
                                        ("conform", acc.c, "chk_conform", 200, hdr), ("pairs", acc.p, chk_ix, 8000, hdrp),
